@@ -81,7 +81,6 @@ func indexUses(fn *ssa.Function, isSlice func(ssa.Value) bool) []ssa.Value {
 
 func runC10(c *Ctx) {
 	p := c.P
-	debugDumpA6(p)
 	// ---------- R1
 	c.Rule("R1", "ORD+GATE", "Service.Start: extensions.Start ≺ NotifyConfig ≺ pipelines.StartAll ≺ NotifyPipelineReady, each reached only after the previous succeeded; Service.Shutdown: NotifyPipelineNotReady ≺ pipelines.ShutdownAll ≺ extensions.Shutdown ≺ telemetry shutdown, all on every path, single return", 8)
 	find := func(fn *ssa.Function, pkg, typ, name string) ssa.CallInstruction {
